@@ -7,6 +7,8 @@ import (
 	"fmt"
 	"net/http"
 	"path/filepath"
+	"sort"
+	"strings"
 	"sync"
 	"time"
 
@@ -134,14 +136,34 @@ func C08(r *core.Run) {
 		}(si)
 	}
 	wg.Wait()
+	// schedule after a success: a median ratio beyond 1.5 (or below 0.66) in at least two independent agent runs
+	var shifted []string
+	c08Shifts.Range(func(k, v interface{}) bool {
+		shifted = append(shifted, fmt.Sprintf("run %v: median ratio %.2f", k, v))
+		return true
+	})
+	sort.Strings(shifted)
+	if len(shifted) >= 2 {
+		r.Violate("C08:schedule-after-success-differs", fmt.Sprintf("the delays of a failure streak that follows a successful list call differ from the cold-start schedule (gaps 7..11 of the second streak divided by the same gaps of the first, same agent): %s", strings.Join(shifted, "; ")), nil, nil)
+	} else if len(shifted) == 1 {
+		r.Inconclusive("one agent run showed a shifted schedule after a success: " + shifted[0])
+	}
 	r.JudgeRaces(core.ParseRaceLogs(filepath.Join(r.WorkDir, "race-")))
 	r.Finish(r.Pick(100, 5000))
 }
+
+var c08Shifts sync.Map
 
 // c08Script runs: F=11 failures, 1 success, 3 failures, 1 success, 2 failures
 // and judges the arrival gaps. Returns whether the gap after the first
 // post-success failure was long (>= 0.9*base(11)).
 func c08Script(r *core.Run, agentBin string, md *fakes.Metadata, si, rep int, kind string) (long bool, ok bool) {
+	scheduleShift := 0.0
+	defer func() {
+		if scheduleShift != 0 {
+			c08Shifts.Store(fmt.Sprintf("%d-%d", si, rep), scheduleShift)
+		}
+	}()
 	px, err := fakes.NewProxy()
 	if err != nil {
 		r.Broken(err.Error())
@@ -158,7 +180,16 @@ func c08Script(r *core.Run, agentBin string, md *fakes.Metadata, si, rep int, ki
 	for i := 0; i < nf; i++ {
 		script = append(script, false)
 	}
-	script = append(script, true, false, false, false, true, false, false, true)
+	if kind == "500" {
+		// a second streak as long as the first: after a success the schedule must be the same as from a cold start
+		script = append(script, true)
+		for i := 0; i < nf; i++ {
+			script = append(script, false)
+		}
+		script = append(script, true)
+	} else {
+		script = append(script, true, false, false, false, true, false, false, true)
+	}
 	resetIdx := nf + 1 // index of the first failure after the first success
 	backendAddr := "127.0.0.1:1"
 	var extra []string
@@ -273,6 +304,7 @@ func c08Script(r *core.Run, agentBin string, md *fakes.Metadata, si, rep int, ki
 	// gaps: after the k-th consecutive failure (k=1..) the agent sleeps base(k-1)
 	consec := 0
 	var gaps []int64
+	var streaks [][]time.Duration
 	for i := 0; i < len(script); i++ {
 		gap := arr[i+1].Sub(arr[i])
 		if script[i] {
@@ -280,6 +312,10 @@ func c08Script(r *core.Run, agentBin string, md *fakes.Metadata, si, rep int, ki
 			continue
 		}
 		consec++
+		if consec == 1 {
+			streaks = append(streaks, nil)
+		}
+		streaks[len(streaks)-1] = append(streaks[len(streaks)-1], gap)
 		base := c08Base(uint64(consec - 1))
 		gaps = append(gaps, gap.Microseconds())
 		r.Cases(fmt.Sprintf("blackbox|%s|failure#%d", kind, consec), 1)
@@ -296,6 +332,19 @@ func c08Script(r *core.Run, agentBin string, md *fakes.Metadata, si, rep int, ki
 		if !r.Quick() && gap.Nanoseconds() > base/10*11+2000000000 {
 			r.Inconclusive(fmt.Sprintf("script %d: gap %v after %d failures exceeds 1.1*base+2s (soft bound, load-dependent)", si, gap, consec))
 		}
+	}
+	// Same schedule after a success as from a cold start: compare the k-th gaps of two full streaks of one agent (both carry
+	// the same list-call overhead, so load cancels out to first order); with +-10% jitter their ratio stays within 0.82..1.22.
+	if len(streaks) >= 2 && len(streaks[0]) >= 11 && len(streaks[1]) >= 11 {
+		var ratios []float64
+		for k := 6; k <= 10; k++ {
+			ratios = append(ratios, float64(streaks[1][k])/float64(streaks[0][k]))
+		}
+		sort.Float64s(ratios)
+		if med := ratios[len(ratios)/2]; med > 1.5 || med < 0.66 {
+			scheduleShift = med
+		}
+		r.Cases("blackbox|second-streak-after-success-vs-cold-start", 1)
 	}
 	if rep == 0 && si == 0 {
 		r.Sample(map[string]interface{}{"script": "11 failures, success, 3 failures, success, 2 failures, success", "kind": kind, "gaps_us_after_each_failure": gaps})
